@@ -1109,7 +1109,7 @@ class TransferReadOp(VectorTransferOperation):
         )
 
         # Create and return the TransferReadOp
-        return TransferReadOp(
+        op = TransferReadOp(
             source=source,
             indices=indices,
             padding=padding,
@@ -1118,6 +1118,12 @@ class TransferReadOp(VectorTransferOperation):
             in_bounds=in_bounds,
             result_type=vector_type,
         )
+        op.attributes |= {
+            name: attr
+            for name, attr in attributes_dict.items()
+            if name not in ("permutation_map", "in_bounds")
+        }
+        return op
 
     def verify_(self):
         assert isa(self.source.type, MemRefType | TensorType)
@@ -1263,8 +1269,8 @@ class TransferWriteOp(VectorTransferOperation):
             types_pos,
         )
 
-        # Create and return the TransferReadOp
-        return TransferWriteOp(
+        # Create and return the TransferWriteOp
+        op = TransferWriteOp(
             vector=vector,
             source=source,
             indices=indices,
@@ -1273,6 +1279,12 @@ class TransferWriteOp(VectorTransferOperation):
             in_bounds=in_bounds,
             result_type=shaped_type if isinstance(shaped_type, TensorType) else None,
         )
+        op.attributes |= {
+            name: attr
+            for name, attr in attributes_dict.items()
+            if name not in ("permutation_map", "in_bounds")
+        }
+        return op
 
     def verify_(self):
         assert isa(self.source.type, MemRefType | TensorType)
